@@ -10,8 +10,8 @@ NOTES = {
  'C03-1': 'UNDECIDED (exit 2): computeGroundEnergy restructured (std::min, different loop) -- the woven spec no longer compiles',
  'C09-1': 'C09 check passes (its contract REQUIRES eigenvalues >= ground energy, which is C03\'s post-condition); the C03 check is UNDECIDED (function restructured, extraction break)',
  'C10-2': 'UNDECIDED (exit 2): .transpose() has no model; the change is a no-op in the real-valued build that is verified (breaks the property only with -DPOMEROL_COMPLEX_MATRIX_ELEMENTS)',
- 'C04-1': 'quick tier passes (the 8-argument addHopping is only inlined into h_addHopping4, which needs 40 GB and is thorough-tier)',
- 'C04-2': 'not detected: addCoulombP is not under contract (C04 claim says so)',
+ 'C04-1': 'detected after the 8-argument addHopping was given its own contract (h_addHopping8) in response to this change',
+ 'C04-2': 'detected after addCoulombP was put under contract (round 2) in response to this change',
  'C01-2': 'detected after GFContainer::createElement was put under contract (specs/containers.c) in response to this change',
  'C14-2': 'detected after EnsembleAverage::prepare was put under contract (specs/ensavg.c) in response to this change',
  'C09-2': 'detected after EnsembleAverage::prepare was put under contract (specs/ensavg.c)',
